@@ -145,6 +145,33 @@ Lemma collector_wrappers_transparent : forall K ws c ops,
   run_case G (kplug K (cwrap_nest ws c)) ops = run_case G (kplug K c) ops.
 Proof. intros. rewrite !grun. apply collector_wrappers_transparent_v. Qed.
 
+(** * Unwinding: ops executed in a Drop impl while a panic propagates *)
+Lemma gen_order_lock_first : gen_order = LockFirst.
+Proof. vm_compute. reflexivity. Qed.
+
+Lemma unwinding_changes_nothing : forall c ops k, run_case_u G gen_order c ops k = run_case G c ops.
+Proof.
+  intros c ops k. rewrite gen_order_lock_first. unfold run_case_u, run_case, unwind_tables.
+  rewrite <- map_app, firstn_skipn. reflexivity.
+Qed.
+
+Lemma wrappers_transparent_while_unwinding : forall K ps x ops k,
+  (existsb uses_id ps = true -> is_none (sub_obj G x) = false) ->
+  run_case_u G gen_order (cplug K (wrap_nest ps x)) ops k = run_case_u G gen_order (cplug K x) ops k.
+Proof. intros. rewrite !unwinding_changes_nothing. apply wrappers_transparent; assumption. Qed.
+
+(** With `panicking()` consulted before the lock, the reload wrapper drops what is delivered during unwinding:
+    rec.with(L1).with(reload(L2)).with(L3), `enter 1` normally, `exit 1` while unwinding. *)
+Lemma panicking_first_refuted :
+  let c := CLayered (SLeaf 3 unhinted) (CLayered (SWrap SwReload (SLeaf 2 unhinted)) (CLayered (SLeaf 1 unhinted) (CLeaf 0 unhinted))) in
+  let c0 := CLayered (SLeaf 3 unhinted) (CLayered (SLeaf 2 unhinted) (CLayered (SLeaf 1 unhinted) (CLeaf 0 unhinted))) in
+  run_case_u G PanickingFirst c0 [OEnter 1; OExit 1] 1 = run_case G c0 [OEnter 1; OExit 1] /\
+  run_case_u G PanickingFirst c [OEnter 1; OExit 1] 1 <> run_case G c0 [OEnter 1; OExit 1] /\
+  snd (run_case_u G PanickingFirst c [OEnter 1; OExit 1] 1) =
+    [([(0, enter, (0,1,0)); (1, on_enter, (0,1,0)); (2, on_enter, (0,1,0)); (3, on_enter, (0,1,0))], RUnit);
+     ([(0, exit, (0,1,0)); (1, on_exit, (0,1,0)); (3, on_exit, (0,1,0))], RUnit)].
+Proof. cbv zeta. repeat apply conj; vm_compute; try reflexivity; discriminate. Qed.
+
 (** * None / empty Vec *)
 Lemma absent_as_if_absent : forall z, absent z = true ->
   (* a layer anywhere in a stack *)
